@@ -1580,6 +1580,12 @@ func installBuiltins(in *Interp, p *Package) {
 		in.Trace = append(in.Trace, Event{"host-cond", Canon(a[0])})
 		return Nil(), nil
 	})
+	B("host-panic-handler", 1, -1, func(in *Interp, env *Env, a []*V) (*V, *Err) {
+		in.Trace = append(in.Trace, Event{"host-panic-handler", Canon(a[0])})
+		e := in.cond("internal-panic", []*V{Str(BuiltinMsg)}, "host panic in handler")
+		e.Panic = true
+		return nil, e
+	})
 	B("host-panic", 1, 1, func(in *Interp, env *Env, a []*V) (*V, *Err) {
 		in.Trace = append(in.Trace, Event{"host-panic", Canon(a[0])})
 		e := in.cond("internal-panic", []*V{Str(BuiltinMsg)}, "host panic")
